@@ -8,7 +8,7 @@ from qv import core
 from qv.core import bits, mat
 
 RULE = ('exhaustive over all Pauli strings / bsf vectors / ordered pairs for n<=N0, all (n,lo,hi) for ipauli with '
-        'n<=N1, all pack lengths 0..L, plus seeded random vectors and matrices up to n=300, call histories with in-place updates of returned arrays, dense operators at accumulator-width boundaries up to n=2^20+1 (2^24+3 thorough); a case is non-trivial '
+        'n<=N1, all pack lengths 0..L, plus seeded random vectors and matrices up to n=300, call histories with in-place updates of returned arrays, every public function on every argument shape in 7 memory presentations (plain, read-only, strided, reversed, offset, column-major / sliced; arguments unchanged incl. the memory around a view, read-only accepted, results share no memory with arguments or earlier results), ibsf / ipauli as retained sequences judged after full consumption (list, matrix, pairs, held items while advancing, several interleaved iterators), random call histories over all public functions on a pool of retained arrays that are re-used as arguments and updated in place by the caller, dense operators at accumulator-width boundaries up to n=2^20+1 (2^24+3 thorough); a case is non-trivial '
         'when its operand is not all-identity/all-zero; distinct = distinct protocol lines')
 
 ANTI = {(a, b): (a != 'I' and b != 'I' and a != b) for a in 'IXYZ' for b in 'IXYZ'}
@@ -156,7 +156,544 @@ def run(ctx):
             if overlap == n and int(pt.bsf_wt(a ^ b if False else a)) != n:
                 ctx.monitor_fail('bsf_wt of X^n is not n', {'n': n})
             del a, b
+    part_purity(ctx, pt)
+    part_generators(ctx, pt)
+    part_histories(ctx, pt)
     return ctx.finish(RULE, search=search)
+
+
+# ------------------------------------------------------------------------------------------ purity / freshness
+# The property quantifies over VALUES (Pauli operators, binary vectors); the code works on numpy arrays that the caller
+# keeps.  For the statement to hold "for all inputs" every public function must (1) leave the arrays it is handed
+# unchanged (the operator b denotes the same Pauli after bsf_wt(b) as before), whatever their memory layout and also
+# when they are read-only, and (2) return values that are the caller's own (no result shares memory with an argument,
+# with an earlier result, or with anything a later call returns): otherwise string<->bsf, bsp and the weight-ordered
+# enumeration are right for one call and wrong for the same value one call later.
+
+def py_to_bsf(s):
+    return [int(c in 'XY') for c in s] + [int(c in 'ZY') for c in s]
+
+
+def py_of_bsf(b):
+    n = len(b) // 2
+    return ''.join('IXZY'[int(b[i]) + 2 * int(b[n + i])] for i in range(n))
+
+
+def py_anti(s, t):
+    return sum(ANTI[(x, y)] for x, y in zip(s, t)) % 2
+
+
+def py_enum(n, lo, hi):
+    """independent enumeration: Pauli strings of weight lo..hi as a set"""
+    return {''.join(t) for t in itertools.product('IXYZ', repeat=n) if lo <= sum(c != 'I' for c in t) <= hi}
+
+
+FORMS = ['plain', 'readonly', 'strided', 'readonly-strided', 'reversed', 'offset', 'layout']
+FILL = 7    # content of the memory between / around the elements of a view: never a valid binary entry
+
+
+def present(a, form):
+    """the value `a` (1-d or 2-d int array) in a given memory presentation: returns (array handed to the code,
+    base array owning the memory)"""
+    a = np.array(a, dtype=int)
+    ro = form.startswith('readonly')
+    kind = form[9:] if form.startswith('readonly-') else form
+    if kind in ('plain', 'readonly'):
+        base = a.copy(); sel = (Ellipsis,)
+    elif kind == 'strided':
+        base = np.full(tuple(2 * d + 1 for d in a.shape), FILL, dtype=int)
+        sel = tuple(slice(1, None, 2) for _ in a.shape)
+        base[sel] = a
+    elif kind == 'reversed':
+        sel = tuple(slice(None, None, -1) for _ in a.shape)
+        base = a[sel].copy()
+    elif kind == 'offset':
+        base = np.full(tuple(d + 5 for d in a.shape), FILL, dtype=int)
+        sel = tuple(slice(3, 3 + d) for d in a.shape)
+        base[sel] = a
+    else:   # 'layout': column-major storage for matrices, a slice of a longer vector for vectors
+        if a.ndim == 2:
+            base = np.asfortranarray(a); sel = (Ellipsis,)
+        else:
+            base = np.concatenate([a, np.full(3, FILL, dtype=int)]); sel = (slice(0, len(a)),)
+    if ro:
+        base.setflags(write=False)
+    return base[sel], base
+
+
+def show(v):
+    if isinstance(v, np.ndarray):
+        return bits(v) if v.ndim == 1 else (mat(v) if v.ndim == 2 else repr(v.tolist()))
+    if isinstance(v, (np.integer,)):
+        return str(int(v))
+    return repr(v)
+
+
+def as_paulis(v):
+    """binary vector / matrix -> Pauli string(s) by the harness' own conversion (None when not an even-length binary)"""
+    try:
+        v = np.asarray(v)
+        if v.ndim == 1 and len(v) % 2 == 0 and set(v.tolist()) <= {0, 1}:
+            return py_of_bsf(v)
+        if v.ndim == 2 and v.shape[1] % 2 == 0 and set(v.ravel().tolist()) <= {0, 1}:
+            return [py_of_bsf(r) for r in v]
+    except Exception:
+        pass
+    return None
+
+
+class Pure:
+    """runs real paulitools calls under the purity / freshness monitors; `live` = every array the caller still holds
+    (arguments' bases and earlier results) with the value it must still have"""
+
+    def __init__(self, ctx, tag):
+        self.ctx, self.tag = ctx, tag
+        self.live = []        # [name, array, snapshot]
+        self.log = []         # human-readable call history
+        self.failed = False
+
+    def hold(self, arr, desc):
+        name = 'r{}'.format(len(self.live))
+        self.live.append([name, arr, arr.copy()])
+        self.log.append('{} = {}'.format(name, desc))
+        return name
+
+    def fail(self, what, extra, key=None):
+        self.failed = True
+        d = {'history': list(self.log[-40:]), 'part': self.tag}
+        d.update(extra)
+        self.ctx.monitor_fail(what, d, key=key)
+
+    def verify(self, after):
+        """every array the caller holds still has the value it had (the harness' own updates refresh the snapshot)"""
+        for name, arr, snap in self.live:
+            if arr.shape != snap.shape or not np.array_equal(arr, snap):
+                self.fail('an array the caller holds (argument or earlier result) changed during a later paulitools '
+                          'call: the operator it denotes is a different Pauli afterwards (string<->bsf round trip, bsp '
+                          'and weight of the SAME array disagree before / after)',
+                          {'array': name, 'during': after, 'before': show(snap), 'after': show(arr),
+                           'pauli_before': as_paulis(snap), 'pauli_after': as_paulis(arr)})
+                return False
+        return True
+
+    def call(self, desc, fn, args, bases=()):
+        """fn(*args) with monitors: no exception, held arrays unchanged, result fresh.  `bases` = arrays owning the
+        memory of the arguments (held for the duration of the call only unless already live)"""
+        ctx = self.ctx
+        ctx.evaluations += 1
+        tmp = [['<argument>', b, b.copy()] for b in bases if not any(b is l[1] for l in self.live)]
+        self.live += tmp
+        try:
+            try:
+                res = fn(*args)
+            except Exception as ex:
+                self.fail('{} raised {!r} on a valid input (the property holds for all binary vectors / Pauli strings, '
+                          'whatever their memory layout or writeability)'.format(desc.split('(')[0], ex),
+                          {'call': desc, 'args': [show(a) for a in args],
+                           'flags': [(a.flags.writeable, a.flags.c_contiguous) for a in args
+                                     if isinstance(a, np.ndarray)]})
+                return None
+            self.log.append(desc + ' -> ' + show(res)[:200])
+            if not self.verify(desc):
+                return None
+            outs = res if isinstance(res, (list, tuple)) else [res]
+            for o in outs:
+                if isinstance(o, np.ndarray):
+                    for name, arr, _ in self.live:
+                        if arr.size and o.size and np.shares_memory(o, arr):
+                            self.fail('the array returned by {} shares memory with {}: updating either in place '
+                                      'changes the other, so the returned value is not a fixed Pauli / binary vector'
+                                      .format(desc.split('(')[0], 'an argument' if name == '<argument>' else
+                                              'the earlier result / held array ' + name), {'call': desc})
+                            return None
+            return res
+        finally:
+            for t in tmp:
+                self.live.remove(t)
+
+
+def truth_and_case(ctx, pure, fname, vals, res):
+    """value of one call: queue the model comparison and evaluate the property's own ground truth; vals = argument
+    VALUES (as they were before the call)"""
+    def bad(what, **kw):
+        pure.fail('in this call history {} {}'.format(fname, what), dict(kw, args=[show(v) for v in vals]))
+    if res is None:
+        return
+    if fname == 'pauli_to_bsf':
+        s = vals[0]
+        rows = [s] if isinstance(s, str) else list(s)
+        got = np.atleast_2d(res)
+        if got.shape != (len(rows), 2 * len(rows[0])):
+            return bad('returned shape {}'.format(res.shape))
+        for p, r in zip(rows, got):
+            ctx.case('c09 tobsf ' + p, bits(r), nontrivial=False)
+            if [int(x) for x in r] != py_to_bsf(p):
+                return bad('is not the documented bijection', pauli=p, got=bits(r))
+    elif fname == 'bsf_to_pauli':
+        b = vals[0]
+        rows = np.atleast_2d(b)
+        got = [res] if b.ndim == 1 else list(res)
+        for r, p in zip(rows, got):
+            ctx.case('c09 ofbsf ' + bits(r), str(p), nontrivial=False)
+            if p != py_of_bsf(r):
+                return bad('is not the documented bijection', bsf=bits(r), got=p)
+    elif fname == 'bsf_wt':
+        b = vals[0]
+        ctx.case(('c09 bsfwt ' + bits(b)) if b.ndim == 1 else ('c09 bsfwtmat ' + mat(b)), str(int(res)), nontrivial=False)
+        want = sum(c != 'I' for r in np.atleast_2d(b) for c in py_of_bsf(r))
+        if int(res) != want:
+            return bad('does not count the non-identity factors', got=int(res), expected=want)
+    elif fname == 'pauli_wt':
+        s = vals[0]
+        rows = [s] if isinstance(s, str) else list(s)
+        if isinstance(s, str):
+            ctx.case('c09 pauliwt ' + s, str(int(res)), nontrivial=False)
+        else:
+            ctx.case('c09 bsfwtmat ' + mat([py_to_bsf(p) for p in rows]), str(int(res)), nontrivial=False)
+        want = sum(c != 'I' for p in rows for c in p)
+        if int(res) != want:
+            return bad('does not count the non-identity factors', got=int(res), expected=want)
+    elif fname == 'bsp':
+        a, b = vals          # b is given as bsf rows (vector or matrix of operators), i.e. BEFORE transposition
+        A, B = np.atleast_2d(a), np.atleast_2d(b)
+        want = np.array([[py_anti(py_of_bsf(x), py_of_bsf(y)) for y in B] for x in A])
+        got = np.asarray(res)
+        if a.ndim == 1 and b.ndim == 1:
+            ctx.case('c09 bsp {} {}'.format(bits(a), bits(b)), str(int(res)), nontrivial=False)
+            got2 = got.reshape(1, 1) if got.size == 1 else None
+        elif a.ndim == 1:
+            ctx.case('c09 synd {} {}'.format(mat(B), bits(a)), bits(got) if got.ndim == 1 else 'shape', nontrivial=False)
+            got2 = got.reshape(1, -1) if got.ndim == 1 else None
+        elif b.ndim == 1:
+            ctx.case('c09 bspmat {} {}'.format(mat(A), mat(B)), mat(np.array([got]).T) if got.ndim == 1 else 'shape',
+                     nontrivial=False)
+            got2 = got.reshape(-1, 1) if got.ndim == 1 else None
+        else:
+            ctx.case('c09 bspmat {} {}'.format(mat(A), mat(B)), mat(got) if got.ndim == 2 else 'shape', nontrivial=False)
+            got2 = got if got.ndim == 2 else None
+        if got2 is None or got2.shape != want.shape or not np.array_equal(got2, want):
+            return bad('disagrees with the Pauli-group commutation', got=show(got), expected=mat(want),
+                       a=as_paulis(a), b=as_paulis(b))
+    elif fname == 'pack':
+        b = vals[0]
+        ctx.case('c09 pack ' + bits(b), '{} {}'.format(res[0], res[1]), nontrivial=False)
+        want = ''.join('{:02x}'.format(int(''.join(str(int(x)) for x in list(b[i:i + 8]) + [0] * (8 - len(b[i:i + 8]))),
+                                           2)) for i in range(0, len(b), 8))
+        if (res[0], res[1]) != (want, len(b)):
+            return bad('is not the big-endian bit packing', got=repr(res), expected=repr((want, len(b))))
+    elif fname == 'unpack':
+        hx, ln = vals[0]
+        ctx.case('c09 unpack {} {}'.format(hx if hx else '_', ln), bits(res), nontrivial=False)
+        want = [int(c) for c in ''.join('{:08b}'.format(x) for x in bytes.fromhex(hx))][:ln]
+        if [int(x) for x in res] != want:
+            return bad('does not invert pack', got=bits(res), expected=bits(want))
+
+
+def rand_bsf(rng, n, rows=None):
+    if rows is None:
+        return np.array([rng.randint(0, 1) for _ in range(2 * n)], dtype=int)
+    return np.array([[rng.randint(0, 1) for _ in range(2 * n)] for _ in range(rows)], dtype=int)
+
+
+def part_purity(ctx, pt):
+    """every public function x every argument shape x every memory presentation of the argument(s): arguments are
+    not modified (also around / between the elements of a view), read-only inputs are accepted, results are fresh"""
+    rng = ctx.rng
+    for n in range(1, ctx.scale(2, 3) + 1):
+        strs = [''.join(t) for t in itertools.product('IXYZ', repeat=n)]
+        for form in FORMS:
+            for s in strs:
+                P = Pure(ctx, 'purity')
+                val = np.array(py_to_bsf(s))
+                v, base = present(val, form)
+                ctx.count('purity.form', form)
+                truth_and_case(ctx, P, 'bsf_wt', [val], P.call('bsf_wt(<{}> {})'.format(form, s), pt.bsf_wt, [v], [base]))
+                # the same array object goes on being used, as a caller would: it must still be the same Pauli
+                truth_and_case(ctx, P, 'bsf_to_pauli', [val],
+                               P.call('bsf_to_pauli(<{}> {})'.format(form, s), pt.bsf_to_pauli, [v], [base]))
+                truth_and_case(ctx, P, 'pack', [val], P.call('pack(<{}> {})'.format(form, s), pt.pack, [v], [base]))
+                t = rng.choice(strs)
+                w, wbase = present(np.array(py_to_bsf(t)), rng.choice(FORMS))
+                truth_and_case(ctx, P, 'bsp', [val, np.array(py_to_bsf(t))],
+                               P.call('bsp(<{}> {}, {})'.format(form, s, t), pt.bsp, [v, w], [base, wbase]))
+                truth_and_case(ctx, P, 'bsp', [np.array(py_to_bsf(t)), val],
+                               P.call('bsp({}, <{}> {})'.format(t, form, s), pt.bsp, [w, v], [base, wbase]))
+                truth_and_case(ctx, P, 'bsf_wt', [val], P.call('bsf_wt(<{}> {}) again'.format(form, s), pt.bsf_wt, [v],
+                                                               [base]))
+                if P.failed:
+                    return
+    for _ in range(ctx.scale(300, 3000)):
+        P = Pure(ctx, 'purity')
+        n = rng.choice([1, 2, 3, 4, 5, 8, 9, 17, 64])
+        ra, rb = rng.randint(1, 4), rng.randint(1, 4)
+        fa, fb = rng.choice(FORMS), rng.choice(FORMS)
+        A, B = rand_bsf(rng, n, ra), rand_bsf(rng, n, rb)
+        vA, bA = present(A, fa)
+        vB, bB = present(B, fb)
+        ctx.count('purity.form2', fa)
+        d = '<{}> {}x{}'.format(fa, ra, 2 * n)
+        truth_and_case(ctx, P, 'bsf_wt', [A], P.call('bsf_wt({})'.format(d), pt.bsf_wt, [vA], [bA]))
+        truth_and_case(ctx, P, 'bsf_to_pauli', [A], P.call('bsf_to_pauli({})'.format(d), pt.bsf_to_pauli, [vA], [bA]))
+        truth_and_case(ctx, P, 'bsp', [A, B], P.call('bsp({}, <{}>.T)'.format(d, fb), pt.bsp, [vA, vB.T], [bA, bB]))
+        truth_and_case(ctx, P, 'bsp', [A, B[0]], P.call('bsp({}, row)'.format(d), pt.bsp, [vA, vB[0]], [bA, bB]))
+        truth_and_case(ctx, P, 'bsp', [A[0], B], P.call('bsp(row, <{}>.T)'.format(fb), pt.bsp, [vA[0], vB.T], [bA, bB]))
+        truth_and_case(ctx, P, 'bsp', [A[0], B[0]], P.call('bsp(row, row)', pt.bsp, [vA[0], vB[0]], [bA, bB]))
+        truth_and_case(ctx, P, 'bsf_wt', [A[0]], P.call('bsf_wt(row of {})'.format(d), pt.bsf_wt, [vA[0]], [bA]))
+        truth_and_case(ctx, P, 'pack', [A[0]], P.call('pack(row of {})'.format(d), pt.pack, [vA[0]], [bA]))
+        # string / list arguments: the list object the caller passes is not consumed / reordered
+        lst = [rand_pauli(rng, n) for _ in range(ra)]
+        keep = list(lst)
+        r1 = P.call('pauli_to_bsf({!r})'.format(lst)[:120], pt.pauli_to_bsf, [lst])
+        truth_and_case(ctx, P, 'pauli_to_bsf', [keep], r1)
+        r2 = P.call('pauli_wt(list)', pt.pauli_wt, [lst])
+        truth_and_case(ctx, P, 'pauli_wt', [keep], r2)
+        if lst != keep:
+            P.fail('pauli_to_bsf / pauli_wt modified the list of Pauli strings it was given', {'before': keep,
+                                                                                                 'after': lst})
+        # results are fresh w.r.t. each other: two calls with the same argument, both results kept
+        if r1 is not None:
+            P.hold(r1, 'pauli_to_bsf(list)')
+            r1b = P.call('pauli_to_bsf(same list)', pt.pauli_to_bsf, [lst])
+            truth_and_case(ctx, P, 'pauli_to_bsf', [keep], r1b)
+        s1 = P.call('pauli_to_bsf({!r})'.format(keep[0])[:120], pt.pauli_to_bsf, [keep[0]])
+        if s1 is not None:
+            P.hold(s1, 'pauli_to_bsf(str)')
+            truth_and_case(ctx, P, 'pauli_to_bsf', [keep[0]], P.call('pauli_to_bsf(same str)', pt.pauli_to_bsf,
+                                                                     [keep[0]]))
+        pk = pt.pack(A[0])
+        u1 = P.call('unpack({!r})'.format(pk)[:120], pt.unpack, [pk])
+        if u1 is not None:
+            P.hold(u1, 'unpack(packed)')
+            truth_and_case(ctx, P, 'unpack', [pk], P.call('unpack(same)', pt.unpack, [pk]))
+        o1 = P.call('bsp(A, B.T)', pt.bsp, [vA, vB.T], [bA, bB])
+        if isinstance(o1, np.ndarray):
+            P.hold(o1, 'bsp(A, B.T)')
+            truth_and_case(ctx, P, 'bsp', [A, B], P.call('bsp(A, B.T) again', pt.bsp, [vA, vB.T], [bA, bB]))
+        if P.failed:
+            return
+
+
+def retained_check(ctx, P, what, n, lo, hi, kept, call):
+    """a retained sequence of yielded bsf arrays, judged AFTER the iterator was fully consumed: the model's sequence
+    (correspondence case) and the property itself (every Pauli of the weight range exactly once, non-decreasing)"""
+    strs = [py_of_bsf(b) if len(b) == 2 * n and set(np.asarray(b).tolist()) <= {0, 1} else '?' for b in kept]
+    ctx.case('c09 ipauli {} {} {}'.format(n, lo, hi), 'ok ' + ' '.join(p if p else '_' for p in strs),
+             nontrivial=(n > 0), meta={'via': what})
+    want = py_enum(n, lo, hi)
+    ws = [sum(c != 'I' for c in p) for p in strs]
+    if set(strs) != want or len(strs) != len(want) or ws != sorted(ws):
+        P.fail('{} does not contain every Pauli of the weight range exactly once in non-decreasing weight'.format(call),
+               {'n': n, 'min_weight': lo, 'max_weight': hi, 'n_items': len(strs), 'n_distinct': len(set(strs)),
+                'n_expected': len(want), 'first_items': strs[:8],
+                'distinct_objects': len({id(b) for b in kept})})
+        return False
+    return True
+
+
+def part_generators(ctx, pt):
+    """ipauli / ibsf as SEQUENCES: what a caller who retains the yielded items holds after the iterator is exhausted
+    (list, matrix, sorted, pairs), while it is still running (best-so-far kept across later next() calls), and with
+    several iterators open at once"""
+    rng = ctx.rng
+    nmax = ctx.scale(4, 5)
+    for n in range(0, nmax + 1):
+        for lo in range(0, n + 1):
+            for hi in range(lo, n + 1):
+                P = Pure(ctx, 'generators')
+                ctx.count('retained_n', n)
+                kept = P.call('list(ibsf({}, {}, {}))'.format(n, lo, hi), lambda: list(pt.ibsf(n, lo, hi)), [])
+                if kept is None:
+                    return
+                if n == 0:
+                    continue
+                if not retained_check(ctx, P, 'ibsf', n, lo, hi, kept, 'list(ibsf({}, {}, {}))'.format(n, lo, hi)):
+                    return
+                # derived retained forms: matrix, weight-sorted, unordered pairs
+                M = np.array(kept).reshape(len(kept), 2 * n)
+                ps = list(pt.ipauli(n, lo, hi))
+                if [py_of_bsf(r) for r in M] != ps:
+                    P.fail('np.array(list(ibsf(n, lo, hi))) is not the matrix of list(ipauli(n, lo, hi))',
+                           {'n': n, 'min_weight': lo, 'max_weight': hi}); return
+                if n <= 3:
+                    pairs = list(itertools.combinations(pt.ibsf(n, lo, hi), 2))
+                    wantp = list(itertools.combinations(ps, 2))
+                    if [(py_of_bsf(a), py_of_bsf(b)) for a, b in pairs] != wantp:
+                        P.fail('itertools.combinations(ibsf(n, lo, hi), 2) are not the pairs of distinct Paulis of the '
+                               'weight range', {'n': n, 'min_weight': lo, 'max_weight': hi}); return
+                # freshness: yielded arrays are pairwise independent and independent of any pauli_to_bsf result
+                seen = kept[:200]
+                for i in range(len(seen) - 1):
+                    if np.shares_memory(seen[i], seen[i + 1]) or np.shares_memory(seen[i], seen[-1]):
+                        P.fail('successive items yielded by ibsf share memory', {'n': n, 'min_weight': lo,
+                                                                                  'max_weight': hi, 'index': i}); return
+                # while running: keep an item, advance, the kept item is still the Pauli it was
+                g = pt.ibsf(n, lo, hi)
+                held = []
+                for k, b in enumerate(g):
+                    if rng.random() < 0.3 or k == 0:
+                        held.append((k, b, b.copy()))
+                    for k0, arr, snap in held:
+                        if not np.array_equal(arr, snap):
+                            P.fail('an item yielded by ibsf changes when the iterator is advanced: the Pauli at position '
+                                   '{} of the enumeration is {} when yielded and {} {} steps later'.format(
+                                       k0, py_of_bsf(snap), py_of_bsf(arr), k - k0),
+                                   {'n': n, 'min_weight': lo, 'max_weight': hi}); return
+                    if k > 300:
+                        break
+    # several iterators open at once (same and different arguments), advanced in a random interleaving; caller also
+    # updates yielded arrays in place (as a decoder xor-ing a candidate recovery would)
+    for _ in range(ctx.scale(60, 600)):
+        P = Pure(ctx, 'generators')
+        specs = []
+        for _g in range(rng.randint(2, 4)):
+            n = rng.choice([1, 2, 2, 3, 3, 4])
+            lo = rng.randint(0, n); hi = rng.randint(lo, n)
+            kind = rng.choice(['ibsf', 'ibsf', 'ipauli'])
+            specs.append([kind, n, lo, hi, getattr(pt, kind)(n, lo, hi), []])
+        open_ = list(range(len(specs)))
+        ctx.count('interleaved_iterators', len(specs))
+        steps = 0
+        while open_ and steps < 400:
+            i = rng.choice(open_); steps += 1
+            kind, n, lo, hi, g, got = specs[i]
+            try:
+                item = next(g)
+            except StopIteration:
+                open_.remove(i); continue
+            ctx.evaluations += 1
+            P.log.append('next(g{} = {}({}, {}, {}))'.format(i, kind, n, lo, hi))
+            if not P.verify('next(g{})'.format(i)):
+                return
+            if kind == 'ibsf':
+                for name, arr, _ in P.live:
+                    if np.shares_memory(item, arr):
+                        P.fail('an item yielded by ibsf shares memory with an item yielded earlier ({})'.format(name), {})
+                        return
+                got.append(py_of_bsf(item) if len(item) == 2 * n and set(item.tolist()) <= {0, 1} else '?')
+                P.hold(item, 'g{}[{}]'.format(i, len(got) - 1))
+                if rng.random() < 0.3:      # the caller updates what it was given; later items must not depend on it
+                    j = rng.randrange(len(item)); item[j] ^= 1
+                    P.live[-1][2] = item.copy()
+                    P.log.append('{}[{}] ^= 1'.format(P.live[-1][0], j))
+            else:
+                got.append(item)
+        for i, (kind, n, lo, hi, g, got) in enumerate(specs):
+            if i not in open_:
+                ctx.case('c09 ipauli {} {} {}'.format(n, lo, hi), 'ok ' + ' '.join(p if p else '_' for p in got),
+                         nontrivial=(n > 0), meta={'via': kind + '-interleaved'})
+                ws = [sum(c != 'I' for c in p) for p in got]
+                if set(got) != py_enum(n, lo, hi) or len(got) != len(set(got)) or ws != sorted(ws):
+                    P.fail('{}({}, {}, {}) advanced in an interleaving with other iterators does not yield every Pauli '
+                           'of the weight range exactly once in non-decreasing weight'.format(kind, n, lo, hi),
+                           {'yielded': got[:20]}); return
+
+
+def part_histories(ctx, pt):
+    """call histories interleaving all public functions on a pool of arrays the caller keeps: every result is kept and
+    re-used as an argument (the very object, not a copy), updated in place by the caller, and must keep its value
+    otherwise; every value is compared with the model and with the property's ground truth"""
+    rng = ctx.rng
+    for _ in range(ctx.scale(150, 1500)):
+        P = Pure(ctx, 'history')
+        n = rng.choice([1, 2, 3, 4, 5, 8])
+        vecs, mats, other = [], [], []      # indices into P.live
+        gens = []
+
+        def keep(arr, desc, where):
+            P.hold(arr, desc)
+            where.append(len(P.live) - 1)
+
+        def pick(where, rows=None):
+            """an operand: mostly an array the caller already holds, else a new one in a random presentation"""
+            if where and rng.random() < 0.8:
+                e = P.live[rng.choice(where)]
+                return e[1], e[2].copy(), e[0]
+            val = rand_bsf(rng, n, rows)
+            form = rng.choice(FORMS[:1] + FORMS[2:3] + FORMS[4:])     # writeable presentations: the caller updates them
+            v, base = present(val, form)
+            P.hold(base, 'new <{}> {}'.format(form, show(val)[:80]))
+            if base is v:
+                where.append(len(P.live) - 1)
+                return v, val, P.live[-1][0]
+            return v, val, 'view of ' + P.live[-1][0]
+        for step in range(rng.randint(10, 40)):
+            if P.failed:
+                return
+            op = rng.choice(['tobsf', 'tobsfl', 'ofbsf', 'ofbsfm', 'wt', 'wtm', 'pwt', 'bsp', 'bsp', 'bspmv', 'bspvm',
+                             'bspmm', 'pack', 'unpack', 'mutate', 'mutate', 'ibsf', 'adv', 'adv'])
+            ctx.count('history.op', op)
+            if op == 'tobsf':
+                s = rand_pauli(rng, n)
+                r = P.call('pauli_to_bsf({!r})'.format(s), pt.pauli_to_bsf, [s])
+                truth_and_case(ctx, P, 'pauli_to_bsf', [s], r)
+                if r is not None:
+                    keep(r, 'result of pauli_to_bsf({!r})'.format(s), vecs)
+            elif op == 'tobsfl':
+                lst = [rand_pauli(rng, n) for _ in range(rng.randint(1, 3))]
+                r = P.call('pauli_to_bsf({!r})'.format(lst), pt.pauli_to_bsf, [lst])
+                truth_and_case(ctx, P, 'pauli_to_bsf', [list(lst)], r)
+                if r is not None:
+                    keep(r, 'result of pauli_to_bsf({!r})'.format(lst), mats)
+            elif op in ('ofbsf', 'wt', 'pack'):
+                v, val, nm = pick(vecs)
+                fname = {'ofbsf': 'bsf_to_pauli', 'wt': 'bsf_wt', 'pack': 'pack'}[op]
+                truth_and_case(ctx, P, fname, [val], P.call('{}({})'.format(fname, nm), getattr(pt, fname), [v]))
+            elif op in ('ofbsfm', 'wtm'):
+                v, val, nm = pick(mats, rng.randint(1, 3))
+                fname = {'ofbsfm': 'bsf_to_pauli', 'wtm': 'bsf_wt'}[op]
+                truth_and_case(ctx, P, fname, [val], P.call('{}({})'.format(fname, nm), getattr(pt, fname), [v]))
+            elif op == 'pwt':
+                s = rng.choice([rand_pauli(rng, n), [rand_pauli(rng, n) for _ in range(2)]])
+                truth_and_case(ctx, P, 'pauli_wt', [s], P.call('pauli_wt({!r})'.format(s), pt.pauli_wt, [s]))
+            elif op in ('bsp', 'bspmv', 'bspvm', 'bspmm'):
+                a, aval, an = pick(mats if op in ('bspmv', 'bspmm') else vecs, rng.randint(1, 3) if op in (
+                    'bspmv', 'bspmm') else None)
+                b, bval, bn = pick(mats if op in ('bspvm', 'bspmm') else vecs, rng.randint(1, 3) if op in (
+                    'bspvm', 'bspmm') else None)
+                bt = b.T if b.ndim == 2 else b
+                r = P.call('bsp({}, {}{})'.format(an, bn, '.T' if b.ndim == 2 else ''), pt.bsp, [a, bt])
+                truth_and_case(ctx, P, 'bsp', [aval, bval], r)
+                if isinstance(r, np.ndarray) and r.ndim >= 1:
+                    keep(r, 'result of bsp({}, {})'.format(an, bn), other)
+            elif op == 'unpack':
+                b = np.array([rng.randint(0, 1) for _ in range(rng.choice([2 * n, 2 * n, 7, 8, 9]))], dtype=int)
+                hx = ''.join('{:02x}'.format(int(''.join(str(x) for x in list(b[i:i + 8]) + [0] * (8 - len(b[i:i + 8]))),
+                                                 2)) for i in range(0, len(b), 8))
+                r = P.call('unpack({!r})'.format((hx, len(b))), pt.unpack, [(hx, len(b))])
+                truth_and_case(ctx, P, 'unpack', [(hx, len(b))], r)
+                if r is not None:
+                    keep(r, 'result of unpack', vecs if len(b) == 2 * n else other)
+            elif op == 'mutate':
+                cand = [i for i in vecs + mats + other if P.live[i][1].flags.writeable]
+                if cand:
+                    e = P.live[rng.choice(cand)]
+                    idx = tuple(rng.randrange(d) for d in e[1].shape)
+                    if e[1].size:
+                        e[1][idx] ^= 1
+                        e[2] = e[1].copy()
+                        P.log.append('{}[{}] ^= 1   (caller updates its own array in place)'.format(e[0], idx))
+            elif op == 'ibsf' and n <= 3:
+                lo = rng.randint(0, n); hi = rng.randint(lo, n)
+                gens.append([pt.ibsf(n, lo, hi), list(pt.ipauli(n, lo, hi)), 0, (n, lo, hi)])
+                P.log.append('g{} = ibsf({}, {}, {})'.format(len(gens) - 1, n, lo, hi))
+            elif op == 'adv' and gens:
+                gi = rng.randrange(len(gens))
+                g, want, pos, spec = gens[gi]
+                if pos < len(want):
+                    item = P.call('next(g{})'.format(gi), lambda: next(g), [])
+                    gens[gi][2] += 1
+                    if item is None:
+                        return
+                    ctx.case('c09 tobsf ' + want[pos], bits(item), nontrivial=False)
+                    if len(item) != 2 * n or py_of_bsf(item) != want[pos]:
+                        P.fail('in this call history item {} of ibsf{} is not the bsf of item {} of ipauli{}'.format(
+                            pos, spec, pos, spec), {'got': bits(item), 'expected': want[pos]}); return
+                    keep(item, 'item {} of g{}'.format(pos, gi), vecs)
+        if P.failed:
+            return
+        # at the end of the history every retained generator prefix is still the model's prefix (checked by verify at
+        # every step through the snapshots); one final sweep
+        P.verify('end of history')
 
 
 def search(m):
@@ -231,6 +768,14 @@ def search(m):
             if set(got) != want or len(got) != len(set(got)) or ws != sorted(ws):
                 return {'what': 'ipauli is not complete / duplicate-free / weight-ordered', 'n': n, 'lo': lo,
                         'hi': hi, 'n_yielded': len(got), 'n_expected': len(want)}
+            # the bsf iterator, as a retained sequence judged after full consumption
+            kept = list(pt.ibsf(n, lo, hi))
+            gotb = [py_of_bsf(b) if len(b) == 2 * n else '?' for b in kept]
+            ws = [sum(c != 'I' for c in p) for p in gotb]
+            if set(gotb) != want or len(gotb) != len(want) or ws != sorted(ws):
+                return {'what': 'list(ibsf(n, lo, hi)) does not contain every Pauli of the weight range exactly once in '
+                                'non-decreasing weight', 'n': n, 'lo': lo, 'hi': hi, 'n_items': len(gotb),
+                        'n_distinct': len(set(gotb)), 'n_expected': len(want), 'first_items': gotb[:8]}
     if op in ('pack', 'unpack'):
         for length in range(0, 70):
             for b in (np.ones(length, dtype=int), np.arange(length) % 2, (np.arange(length) % 3 == 0).astype(int)):
